@@ -7,6 +7,6 @@ rm -rf $D; mkdir -p $D; cp -r /repo/modules /repo/setup.py $D/ 2>/dev/null
 if [ "$1" = "-s" ]; then sed -i "$2" $D/$3; (cd /repo && diff -u $3 $D/$3 | head -30)
 else P=$(realpath "$1"); (cd $D && patch -p1 -s < "$P") || { echo "patch failed"; rm -rf $D; exit 3; }
 fi
-cd /verif && VERIF_REPO=$D ./check $PROP ${RUNS:+--runs $RUNS} 2>&1 | grep -v "^    " | cut -c1-700 | tail -${TAIL:-12}
+cd /verif && VERIF_EVIDENCE_DIR=$D/out VERIF_REPLAY_DIR=$D/out VERIF_REPO=$D ./check $PROP ${RUNS:+--runs $RUNS} 2>&1 | grep -v "^    " | cut -c1-700 | tail -${TAIL:-12}
 rc=$?
 rm -rf $D
